@@ -272,6 +272,32 @@ impl std::io::Read for VByteReader {
 
 /* -------------------------------- connection ------------------------------- */
 
+/// Public mirror of the crate-private `ConnectionStateError`
+#[derive(Debug, Clone, Copy, PartialEq, Eq)]
+pub enum VStateError {
+    IllegalState,
+    RemoteClosed,
+    /// the peer closed with an error; `true` = the error carried a description
+    RemoteClosedWithError(bool),
+    Transport,
+}
+
+fn state_err(e: ConnectionStateError) -> VStateError {
+    match e {
+        ConnectionStateError::IllegalState => VStateError::IllegalState,
+        ConnectionStateError::RemoteClosed => VStateError::RemoteClosed,
+        ConnectionStateError::RemoteClosedWithError(err) => {
+            let d = err.description.is_some();
+            std::mem::forget(err);
+            VStateError::RemoteClosedWithError(d)
+        }
+        ConnectionStateError::TransportError(t) => {
+            std::mem::forget(t);
+            VStateError::Transport
+        }
+    }
+}
+
 pub struct VConnection {
     pub inner: Connection,
     // keeps the receiving ends of allocated sessions alive
@@ -306,9 +332,13 @@ impl VConnection {
         self.inner.session_by_outgoing_channel.len()
     }
     /// `endpoint::Connection::allocate_session`; `Err(true)` = channel-max reached
-    pub fn allocate_session(&mut self) -> Result<u16, AllocSessionError> {
+    pub fn allocate_session(&mut self) -> Result<u16, bool> {
         let (tx, rx) = mpsc::channel(1);
-        let r = self.inner.allocate_session(tx).map(|c| c.0);
+        let r = self.inner.allocate_session(tx).map(|c| c.0).map_err(|e| {
+            let m = matches!(e, AllocSessionError::ChannelMaxReached);
+            std::mem::forget(e);
+            m
+        });
         if r.is_ok() {
             self.rxs.push(rx);
         }
@@ -317,34 +347,39 @@ impl VConnection {
     pub fn deallocate_session(&mut self, channel: u16) {
         self.inner.deallocate_session(OutgoingChannel(channel))
     }
-    pub fn on_incoming_open(&mut self, open: Open) -> Result<(), ConnectionStateError> {
+    pub fn on_incoming_open(&mut self, open: Open) -> Result<(), VStateError> {
         self.inner
             .on_incoming_open(endpoint::IncomingChannel(0), open)
+            .map_err(state_err)
     }
-    pub fn on_incoming_close(&mut self, close: Close) -> Result<(), ConnectionStateError> {
+    pub fn on_incoming_close(&mut self, close: Close) -> Result<(), VStateError> {
         self.inner
             .on_incoming_close(endpoint::IncomingChannel(0), close)
+            .map_err(state_err)
     }
     pub fn send_open<'a, W>(
         &'a mut self,
         writer: &'a mut W,
-    ) -> impl Future<Output = Result<(), ConnectionStateError>> + 'a
+    ) -> impl Future<Output = Result<(), VStateError>> + 'a
     where
-        W: Sink<Frame> + SendBound + Unpin,
-        ConnectionStateError: From<W::Error>,
+        W: Sink<Frame, Error = crate::transport::Error> + SendBound + Unpin,
     {
-        self.inner.send_open(writer)
+        async move { self.inner.send_open(writer).await.map_err(state_err) }
     }
     pub fn send_close<'a, W>(
         &'a mut self,
         writer: &'a mut W,
         error: Option<fe2o3_amqp_types::definitions::Error>,
-    ) -> impl Future<Output = Result<(), ConnectionStateError>> + 'a
+    ) -> impl Future<Output = Result<(), VStateError>> + 'a
     where
-        W: Sink<Frame> + SendBound + Unpin,
-        ConnectionStateError: From<W::Error>,
+        W: Sink<Frame, Error = crate::transport::Error> + SendBound + Unpin,
     {
-        self.inner.send_close(writer, error)
+        async move {
+            self.inner
+                .send_close(writer, error)
+                .await
+                .map_err(state_err)
+        }
     }
 }
 
